@@ -1454,7 +1454,7 @@ class Interp:
         if isinstance(obj, dict):
             if attr in obj and not hasattr(dict, attr):
                 return obj[attr]
-            if attr in ("items", "keys", "values", "get", "pop", "update", "copy", "setdefault"):
+            if attr in ("items", "keys", "values", "get", "pop", "update", "copy", "setdefault", "popitem", "clear"):
                 if attr in ("items", "keys", "values"):
                     return lambda: list(getattr(obj, attr)())
                 return getattr(obj, attr)
@@ -2008,7 +2008,20 @@ class Interp:
                 return x
             return Opaque("np.all")
 
+        def _arange(*a, **k):
+            a = [to_py(x) for x in a]
+            if len(a) == 1:
+                lo, hi = 0, a[0]
+            elif len(a) == 2:
+                lo, hi = a
+            else:
+                I.fail(None, "np.arange with a step")
+            if isinstance(lo, int) and isinstance(hi, int):
+                return Vec(list(range(lo, hi)))
+            return IdxArr(IdxArr.K + lo, hi - lo)
+
         return {
+            "arange": _arange,
             "pi": sp.pi,
             "e": sp.E,
             "inf": sp.oo,
